@@ -4,36 +4,42 @@
    after a wake-up, signal with the woken waiter chosen arbitrarily, create, join, thread
    start/exit, spurious wake-ups), for any pool size, any caller program over any number
    of ordered / unordered result handlers sharing the pool.
-   PROVED (T13a): in every state reachable under EVERY schedule the pool's worker count
-   is at most the configured maximum (the count bounds the number of live worker threads).
-   STATED, not yet proved (validated by engine pl on every explored schedule): delivery
-   exactly once / in dispatch order (T13b_statement), absence of deadlock
-   (T13d_statement), no failing assertion.  Engine pl runs the real threadpool.c under
-   a schedule-controlling pthread shim - the default schedule, EVERY single preemption of
-   it, seeded random schedules with random signal targets and spurious wake-ups, pairs of
-   preemptions (thorough) - and replays each trace on the LTS comparing, after every step,
-   the operation performed and the set of enabled threads.  Byte-identity of pooled writer
-   output and equality of pooled sorter output are checked by engines wr and so with real
-   threads (pools 0..8). *)
-From Coq Require Import NArith List Lia.
-From Mtbl Require Import model.Bytes model.Pool proofs.PoolProofs.
+   PROVED, for EVERY schedule (spurious wake-ups and arbitrary choices of the woken waiter
+   included), every pool size and every caller program that respects the API contract
+   (prog_wf, executable: handlers exist before they are used, no dispatch after finish, each
+   handler finished once, the pool destroyed last), under the schedule condition sched_wf
+   (a signal wakes only a thread that is blocked on a condition variable):
+   T13a - never more worker threads than the configured maximum;
+   T13_locks - the mutexes a thread holds are a function of its program point, no mutex has
+     two owners, unlock / cond_wait are performed by the owner, nobody locks what it holds;
+   T13_no_abort - no assertion of threadpool.c can fail (idle workers carry no callback, no
+     result and are not running; no dispatch on a finished queue; a result queue is destroyed
+     empty, finished and with its counter at zero) - via the worker life-cycle invariant;
+   T13b - nothing is delivered twice and an ordered handler delivers in dispatch order;
+   T13_exactly_once - when every thread has finished, each handler has delivered exactly the
+     jobs dispatched to it (a permutation of them; with T13b: the dispatch sequence itself
+     for an ordered handler).
+   REFUTED as first stated: T13d_statement (no hang) is false when a signal may wake nobody
+   although a waiter exists (T13d_refuted: a lost wake-up schedule, maxt = 1) - pthread's
+   guarantee "signal wakes at least one waiter" must be a hypothesis; T13_without_sched_wf /
+   T13_without_prog_wf show that the other two hypotheses are needed as well.  The no-hang
+   clause with that hypothesis added is NOT proved (partial: in a terminal state of a
+   reachable run every live thread waits in cond_wait or join, or for the pool mutex held by
+   the destroyer; proofs/PoolLive.v when present); engine pl reports any deadlock of the real
+   threadpool.c on every explored schedule.
+   Engine pl runs the real threadpool.c under a schedule-controlling pthread shim - the
+   default schedule, EVERY single preemption of it, seeded random schedules with random
+   signal targets and spurious wake-ups, pairs of preemptions (thorough) - and replays each
+   trace on the LTS comparing, after every step, the operation performed and the set of
+   enabled threads; it also checks the hypotheses sched_wf and prog_wf on every trace.
+   Byte-identity of pooled writer output and equality of pooled sorter output are checked by
+   engines wr and so with real threads (pools 0..8). *)
+From Coq Require Import NArith List Lia Permutation.
+From Mtbl Require Import model.Bytes model.Pool proofs.PoolProofs proofs.PoolSched proofs.PoolBase proofs.PoolInv proofs.PoolLife proofs.PoolStep2
+  proofs.PoolAbort proofs.PoolDelivery proofs.PoolExact proofs.PoolCex.
 (* source ties: the statements of the C functions the model follows (gen/Ties.v is regenerated from /repo on every run) *)
 From Mtbl Require props.Ties_C13.
 Local Open Scope N_scope.
-
-(* a schedule: at each step, the thread that runs; for a signal the waiter woken (if any);
-   or a spurious wake-up of a blocked thread *)
-Inductive sched_step := SRun (t : nat) (wake : option nat) | SSpurious (t : nat).
-
-Fixpoint prun (st : pstate) (stash : list (nat * N)) (s : list sched_step) : option (pstate * list (nat * N)) :=
-  match s with
-  | [] => Some (st, stash)
-  | SRun t w :: tl => match pstep st t w stash with
-                      | Some (st', _, _, stash') => prun st' stash' tl
-                      | None => None
-                      end
-  | SSpurious t :: tl => match pspurious st t with Some st' => prun st' stash tl | None => None end
-  end.
 
 Lemma pool_init_cinv maxt prog : cinv (pool_init maxt prog) /\ ps_max (pool_init maxt prog) = maxt.
 Proof.
@@ -68,20 +74,6 @@ Proof.
 Qed.
 Print Assumptions T13a_never_more_workers_than_max.
 
-(* the clauses not yet proved *)
-Definition terminal (st : pstate) : Prop := forall t, enabled st t = false.
-Definition all_done (st : pstate) : Prop := Forall (fun th => t_done th = true) (ps_threads st).
-Definition T13d_statement : Prop :=   (* no hang: without spurious wake-ups, a state where nothing can run has finished *)
-  forall maxt prog s st stash, 1 <= maxt ->
-    prun (pool_init maxt prog) [] s = Some (st, stash) -> terminal st -> all_done st /\ ps_abort st = false.
-Fixpoint increasing (l : list N) : Prop :=
-  match l with a :: ((b :: _) as tl) => a < b /\ increasing tl | _ => True end.
-Definition T13b_statement : Prop :=   (* job ids grow with dispatch order: ordered handlers deliver in that order, nobody delivers twice *)
-  forall maxt prog s st stash, prun (pool_init maxt prog) [] s = Some (st, stash) ->
-    NoDup (ps_delivered st) /\
-    forall h, q_ordered (getq st h) = true ->
-      increasing (map snd (filter (fun p => Nat.eqb (fst p) h) (ps_delivered st))).
-
 (* a concrete schedule evaluated in the model: one ordered handler, two jobs, pool of one
    thread; the run reaches a state where the caller waits for the single worker *)
 Example T13_example :
@@ -92,3 +84,54 @@ Example T13_example :
   | None => False
   end.
 Proof. vm_compute. repeat split. Qed.
+
+(* ---- the invariants of proofs/PoolInv.v, PoolAbort.v, PoolDelivery.v, PoolExact.v ------------- *)
+Theorem T13_locks : forall maxt prog st stash, reachable maxt prog st stash ->
+  NoDup (map fst (ps_owner st)) /\
+  (forall m t, owner_of st m = Some t <-> In m (holds (gett st t))) /\
+  (forall t, t_op (gett st t) = KUnlock -> owner_of st (t_obj (gett st t)) = Some t) /\
+  (forall t, t_op (gett st t) = KWait -> owner_of st (wait_mutex (t_lab (gett st t))) = Some t) /\
+  (forall t, t_op (gett st t) = KLock \/ t_op (gett st t) = KReacq -> owner_of st (t_obj (gett st t)) <> Some t).
+Proof.
+  intros maxt prog st stash R. pose proof (T13_locks_consistent maxt prog st stash R) as I.
+  split; [exact (i1_nodup _ I)|]. split; [exact (i1_own _ I)|].
+  split; [intros t; apply unlock_by_owner; exact I|]. split; [intros t; apply wait_by_owner; exact I|intros t; apply lock_not_self; exact I].
+Qed.
+Print Assumptions T13_locks.
+
+Theorem T13_no_abort : forall maxt prog s st stash, prog_wf prog = true ->
+  sched_wf (pool_init maxt prog) [] s ->
+  prun (pool_init maxt prog) [] s = Some (st, stash) -> ps_abort st = false.
+Proof. exact PoolAbort.T13_no_abort. Qed.
+Print Assumptions T13_no_abort.
+
+Theorem T13b : forall maxt prog s st stash, prog_wf prog = true ->
+  sched_wf (pool_init maxt prog) [] s ->
+  prun (pool_init maxt prog) [] s = Some (st, stash) ->
+  NoDup (ps_delivered st) /\
+  forall h, q_ordered (getq st h) = true ->
+    increasing (map snd (filter (fun p => Nat.eqb (fst p) h) (ps_delivered st))).
+Proof. exact PoolDelivery.T13b. Qed.
+Print Assumptions T13b.
+
+Theorem T13_exactly_once : forall maxt prog s st stash, prog_wf prog = true ->
+  sched_wf (pool_init maxt prog) [] s ->
+  prun (pool_init maxt prog) [] s = Some (st, stash) ->
+  all_done st ->
+  forall h, Permutation (map snd (filter (fun p => Nat.eqb (fst p) h) (ps_delivered st))) (dispatched prog 0 h).
+Proof. exact PoolExact.T13_exactly_once. Qed.
+Print Assumptions T13_exactly_once.
+
+(* the no-hang statement as first written is false: a signal that wakes nobody although a waiter exists *)
+Theorem T13d_refuted : ~ T13d_statement.
+Proof. exact T13d_statement_false. Qed.
+Print Assumptions T13d_refuted.
+
+(* the hypotheses are needed and satisfiable: a schedule that wakes a thread which is not blocked breaks the lock
+   discipline of the MODEL (an artefact excluded by sched_wf); a program that dispatches after finish trips the assert;
+   a complete run of a well-formed program under a well-formed schedule ends with every thread done *)
+Example T13_hypotheses :
+  ~ sched_wf (pool_init 1 [NewHandler true; Dispatch 0]) [] cex_wake_sched /\
+  (sched_wf (pool_init 1 cex_d_prog) [] cex_d_sched /\ prog_wf cex_d_prog = true) /\
+  sched_wf (pool_init 2 full_prog) [] full_sched.
+Proof. split; [exact cex_rogue_wake_not_wf|]. split; [exact cex_d_sched_wf|exact full_sched_wf]. Qed.
